@@ -112,6 +112,34 @@ fn run_case(rep: &mut Report, c: &Case, fam: &str) {
             rep.violate(format!("{fam} {j}"), format!("{fam} k={} rc={} c={} Q={} {}: {e}", c.k, c.rc, c.c, c.q, rule_name(c.rule)), j);
         }
     }
+    // every fourth case once more with soft-masked reads: every second read has every third base in lower case (read
+    // 1 from its first base on, read 3 from its second ...). Lower case is the same base: same dictionary expected.
+    if rep.evaluations % 4 == 1 && fam != "soft-masked" {
+        let mask = |v: &Vec<Read>, off: usize| -> Vec<Read> {
+            v.iter()
+                .enumerate()
+                .map(|(i, (s, q))| {
+                    let t: Vec<u8> = s.iter().enumerate().map(|(p, b)| if (i + off) % 2 == 1 && (p + i / 2) % 3 == 0 { b.to_ascii_lowercase() } else { *b }).collect();
+                    (t, q.clone())
+                })
+                .collect()
+        };
+        let files = [mask(&c.files[0], 1), mask(&c.files[1], 0)];
+        let cm = Case { k: c.k, rc: c.rc, c: c.c, q: c.q, rule: c.rule, files: &files };
+        rep.evaluations += 1;
+        rep.corner("soft_masked_reads");
+        match check(&cm) {
+            Ok(nt) => {
+                if nt {
+                    rep.nontrivial += 1;
+                }
+            }
+            Err(e) => {
+                let j = case_json(&cm);
+                rep.violate(format!("soft-masked {fam} {j}"), format!("{fam} with soft-masked (lower-case) bases k={} rc={} c={} Q={} {}: {e}", c.k, c.rc, c.c, c.q, rule_name(c.rule)), j);
+            }
+        }
+    }
     if rep.evaluations % 16 == 0 {
         rep.outcome(&read_filter_model(&[c.files[0].clone(), c.files[1].clone()], c.k, c.rc, c.c, c.q, c.rule));
     }
